@@ -787,6 +787,7 @@ def run(ctx):
     ctx.sample({"train": cases[order[0]]["x"], "events": cases[order[0]]["ev"]})
 
     # ---------------- code -> spec : end to end, random long trains + amplitude / step variants ---
+    second_long_reads(ctx, folder, np.random.default_rng(ctx.seed + 4242))
     ttl = long_train_records(ctx, folder, rng)
     k = 0
     for c in [cases[i] for i in order[:(300 if ctx.quick else 3000)]]:
@@ -933,6 +934,56 @@ def read_cases(ctx, folder, rng):
         emit(f, {"file": "nidqfp", "i": i, "layout": lay, "thr": thr_name, "floor_percentile": 0}, None, w, raw, thr, "fp0", None)
     ctx.count(sum(len(r["words"]) for r in out))
     return out
+
+
+def second_long_reads(ctx, folder, rng):
+    """one read longer than a second of samples (the default read is 10000 rows; whole-file reads are common): the analog
+    line rests high for almost all of the first second, then carries short pulses - over the whole read more than 10 % of
+    the samples sit at the floor, so the line must read back exactly as written (nothing may be estimated on the beginning
+    of a read only).  Judged directly (the trace specification is not made for 10^5 rows per record): digital lines = the
+    bits of the words, analog line = the written levels, fronts recover every event."""
+    import spikeglx
+    from ibldsp import utils
+    for k in range(1 if ctx.quick else 4):
+        lay = dict(mn=0, ma=0, xa=1, dw=1) if k % 2 == 0 else NIDQ
+        text, info = metagen.make_nidq_meta(ns=10, **lay)
+        fs = int(round(info["fs"]))
+        n = int(fs * (2.2 + 0.4 * k)) + 7
+        lev = np.zeros((n, lay["xa"]), dtype=np.int64)
+        lev[int(0.02 * fs):int(0.97 * fs), 0] = 1                         # high for 95 % of the first second
+        t = int(1.05 * fs)
+        while t < n - 400:
+            lev[t:t + int(rng.integers(40, 300)), 0] = 1                  # short pulses afterwards
+            t += int(rng.integers(2000, 6000))
+        if lay["xa"] > 1:
+            lev[int(0.5 * fs)::int(0.37 * fs), 1] = 1
+        diffs = np.where(lev == 1, 12000, 0)
+        floors = rng.integers(-20000, 10000, size=lay["xa"])
+        words = rng.integers(0, 65536, size=n).astype(np.uint16)
+        f = make_nidq(folder, f"second{k}", words, diffs + floors[None, :], rng, lay=lay)
+        what = f"read_sync of the whole of a {n}-sample nidq recording (fs = {fs}, {lay})"
+        sc = {"kind": "second", "k": k, "seed": ctx.seed}
+        ctx.count(1, key=("second-long-read", k, n))
+        try:
+            sr = spikeglx.Reader(f)
+            try:
+                rows = np.asarray(sr.read_sync(slice(0, n)))
+            finally:
+                sr.close()
+        except Exception as e:
+            ctx.violation("sync:Raised:" + type(e).__name__, f"{what} raised {type(e).__name__}: {e}"[:300], sc)
+            continue
+        if rows.shape != (n, 16 + lay["xa"]):
+            ctx.violation("sync:OneRowPerSample", f"{what}: shape {rows.shape}", sc)
+            continue
+        bits = ((words[:, None].astype(np.int64) >> np.arange(16)[None, :]) & 1)
+        if not np.array_equal(rows[:, :16], bits):
+            ctx.violation("sync:DigitalFirst", f"{what}: the digital lines are not the bits of the words", sc)
+        elif not np.array_equal(rows[:, 16:], lev):
+            bad = np.flatnonzero(np.any(rows[:, 16:] != lev, axis=1))
+            ctx.violation("ttl:AnalogThreshold", f"{what}: the analog lines differ from the levels written at {bad.size} samples, first "
+                          f"at {bad[:3].tolist()} ({int(np.sum(np.diff(lev[:, 0]) != 0))} fronts written on the first line, "
+                          f"{len(utils.fronts(rows[:, 16].astype(np.int8))[0])} recovered)", sc)
 
 
 def long_train_records(ctx, folder, rng):
